@@ -68,6 +68,39 @@ Definition outcome (e : exn) (loc : option attribution) : Prop :=
 Lemma outcome_bare s loc : loc = None -> outcome (XBare s) loc.
 Proof. intros ->. right. left. auto. Qed.
 
+Lemma set_json_proj e o :
+  e_kind (set_json e o) = e_kind e /\ e_cls (set_json e o) = e_cls e /\ e_fld (set_json e o) = e_fld e /\
+  e_dflt (set_json e o) = e_dflt e.
+Proof. unfold set_json. destruct (_ && _); cbn; auto. Qed.
+Lemma set_field_proj e f :
+  e_kind (set_field e f) = e_kind e /\ e_cls (set_field e f) = e_cls e /\ e_dflt (set_field e f) = e_dflt e /\
+  e_fld (set_field e f) =
+    (if parse_family e && (match e_fld e with Some _ => true | None => false end) then e_fld e else Some f).
+Proof. unfold set_field. destruct (_ && _); cbn; auto. Qed.
+Lemma set_class_proj e c :
+  e_kind (set_class e c) = e_kind e /\ e_fld (set_class e c) = e_fld e /\ e_dflt (set_class e c) = e_dflt e /\
+  e_cls (set_class e c) = (match e_cls e with Some x => Some x | None => Some c end).
+Proof. unfold set_class. destruct (e_cls e) eqn:E; cbn; rewrite ?E; auto. Qed.
+Lemma parse_family_kind e e' : e_kind e = e_kind e' -> parse_family e = parse_family e'.
+Proof. unfold parse_family. now intros ->. Qed.
+
+(* the attributes after re_raise's three setters *)
+Lemma setters_proj le cn f o :
+  let r := set_json (set_field (set_class le cn) f) o in
+  parse_family r = parse_family le /\
+  e_cls r = (match e_cls le with Some x => Some x | None => Some cn end) /\
+  e_fld r = (if parse_family le && (match e_fld le with Some _ => true | None => false end) then e_fld le else Some f).
+Proof.
+  cbn zeta.
+  destruct (set_json_proj (set_field (set_class le cn) f) o) as (K1 & C1 & F1 & _).
+  destruct (set_field_proj (set_class le cn) f) as (K2 & C2 & _ & F2).
+  destruct (set_class_proj le cn) as (K3 & F3 & _ & C3).
+  split; [|split].
+  - apply parse_family_kind. congruence.
+  - congruence.
+  - rewrite F1, F2, F3. rewrite (parse_family_kind (set_class le cn) le K3). reflexivity.
+Qed.
+
 Lemma re_raise_outcome e cn o f v loc :
   is_dict o = true -> outcome e loc ->
   outcome (re_raise e cn o f v) (Some (match loc with Some a => a | None => (cn, Some f) end)).
@@ -78,15 +111,13 @@ Proof.
   - rewrite H2, Hn, Hd. cbn [negb]. right. right. eexists. split; [reflexivity|].
     destruct e; try discriminate; cbn; repeat split.
   - cbn [is_marker]. rewrite Hn, Hd. cbn [negb]. right. right. eexists. split; [reflexivity|].
+    destruct (setters_proj le cn f o) as (P & C & F). unfold attr. rewrite P, C, F.
     destruct loc as [a|].
-    + destruct H as [Hc Hf]. unfold attr, set_json, set_field, set_class. rewrite Hc.
+    + destruct H as [Hc Hf]. rewrite Hc. split; auto.
       destruct (snd a) as [f'|].
-      * destruct Hf as [Hp Hf]. rewrite Hp, Hf. cbn.
-        destruct (e_json le); cbn; rewrite ?Hp, ?Hc, ?Hf; auto.
-      * rewrite Hf. cbn. unfold parse_family in *. cbn. rewrite Hc. auto.
-    + destruct H as (Hc & Hdf & Hf & Hp). unfold attr, set_json, set_field, set_class.
-      rewrite Hc. unfold parse_family in *. cbn. rewrite Hp, Hf. cbn.
-      destruct (e_json le); cbn; rewrite ?Hp; auto.
+      * destruct Hf as [Hp Hf]. rewrite Hp, Hf. cbn. auto.
+      * exact Hf.
+    + destruct H as (Hc & Hdf & Hf & Hp). rewrite Hc, Hp, Hf. cbn. auto.
 Qed.
 
 (* ---- generic list facts ---------------------------------------------------------------- *)
@@ -186,14 +217,24 @@ Section Attr.
       (forall t o x e, ld t o (Err x) = Err e -> e = x) /\
       (forall ts k x e, load_elems Or rec ts k (Err x) = Err e -> e = x).
     Proof.
-      apply ty_tys_ind; intros; cbn in *; try congruence.
-      - destruct l; cbn in *; congruence.
-      - rewrite load_r_tuple in H0. destruct (load_elems Or rec ts 0 (Err x)) eqn:E; [discriminate|].
-        inversion H0; subst. eauto.
-      - rewrite load_elems_cons in H1. destruct (ld t false (Err x)) eqn:E1.
+      apply ty_tys_ind.
+      - intros l o x e H. destruct l; cbn in H; congruence.
+      - intros k t IH o x e H. cbn in H. congruence.
+      - intros ts IH o x e H. rewrite load_r_tuple in H.
+        destruct (load_elems Or rec ts 0 (Err x)) eqn:E; [discriminate|]. inversion H; subst. eauto.
+      - intros dd kt _ vt _ o x e H. cbn in H. congruence.
+      - intros t _ o x e H. cbn in H. congruence.
+      - intros ts _ o x e H. cbn in H. congruence.
+      - intros vs o x e H. cbn in H. congruence.
+      - intros n fs _ o x e H. cbn in H. congruence.
+      - intros n r _ o0 _ o x e H. cbn in H. congruence.
+      - intros c o x e H. cbn in H. congruence.
+      - intros k x e H. discriminate.
+      - intros lbl t IHt r IHr k x e H. rewrite load_elems_cons in H.
+        destruct (ld t false (Err x)) eqn:E1.
         + destruct (load_elems Or rec r (Datatypes.S k) (Err x)) eqn:E2; [discriminate|].
-          inversion H1; subst. eauto.
-        + inversion H1; subst. eauto.
+          inversion H; subst. eauto.
+        + inversion H; subst. eauto.
     Qed.
 
     Lemma outcome_notlib e l : is_library e = false /\ is_marker e = false -> l = None -> outcome e l.
@@ -208,7 +249,6 @@ Section Attr.
       - (* leaf *)
         intros l _ o v e _ H. destruct l; cbn in H; try discriminate;
           try (destruct (is_marker e) eqn:Em; [now left|]; apply outcome_notlib; [split; eauto|reflexivity]).
-        inversion H.
       - (* seq *)
         intros k t IH Hc o v e Hs H. cbn in Hc, Hs, H. cbn [locate_ty].
         destruct (py_iter v) as [l|x] eqn:Ei.
@@ -353,7 +393,7 @@ Section Attr.
       destruct miss as [|m0 miss]; [discriminate|]. inversion H; subst.
       assert (Hfb : forallb (fun fx => match snd fx, f_default (fst fx) with None, None => false | _, _ => true end)
                             (combine (c_fields cd) xs) = false).
-      { destruct (forallb _ _) eqn:E; auto. apply (proj2 Hm) in E. discriminate. }
+      { apply not_true_is_false. intro E. apply (proj2 Hm) in E. discriminate. }
       rewrite Hloc, Hfb. cbn. split; [|discriminate].
       right. right. eexists. split; [reflexivity|]. split; reflexivity.
     - inversion H; subst. exact X.
@@ -390,7 +430,7 @@ Section Attr.
     - destruct (nth_error ct c) as [cd|] eqn:En.
       2:{ apply nth_error_None in En. lia. }
       destruct (cls_attr m (data_n m) c cd dd kvs e En H Hs) as [Ho Hn].
-      destruct Ho as [Hm|[(H1 & H2 & H3)|(le & -> & Ha)]]; auto; [congruence|].
+      destruct Ho as [Hm|[(H1 & H2 & H3)|(le & -> & Ha)]]; [now left|congruence|].
       destruct (locate_n Or ct (Datatypes.S m) c (VDict dd kvs)) as [a|]; [|congruence].
       right. exists le, a. split; auto. split; auto. destruct Ha as [Hcl Hf].
       unfold class_name. rewrite Hcl. split; auto.
